@@ -188,6 +188,7 @@ func ManageDeployment(client runtimeclient.Client, daemonset *datadoghqv1alpha1.
 				datadoghqv1alpha1.ExtendedDaemonSetReplicaSetCanaryLabelKey: datadoghqv1alpha1.ExtendedDaemonSetReplicaSetCanaryLabelValue,
 				datadoghqv1alpha1.ExtendedDaemonSetReplicaSetNameLabelKey:   params.Replicaset.GetName(),
 			},
+			runtimeclient.InNamespace(params.Replicaset.GetNamespace()),
 		}
 		if err = client.List(context.TODO(), canaryPods, listOptions...); err != nil {
 			params.Logger.Error(err, "Couldn't get canary pods")
